@@ -11,6 +11,7 @@ package balenum
 
 import (
 	"fmt"
+	"runtime/debug"
 	"sort"
 	"strings"
 )
@@ -53,7 +54,21 @@ func (c *Case) ID(i int) string {
 	if c.IDs != nil {
 		return c.IDs[i]
 	}
+	if i < len(defaultIDs) {
+		return defaultIDs[i]
+	}
 	return fmt.Sprintf("m%d", i)
+}
+
+var defaultIDs = []string{"m0", "m1", "m2", "m3", "m4", "m5", "m6", "m7"}
+var defaultInstanceIDs = []string{"i9", "i8", "i7", "i6", "i5", "i4", "i3", "i2"}
+
+// TuneGC trades memory for speed: the checks allocate many tiny short-lived
+// objects (encoded metadata, plans) with a tiny live heap, so collect only
+// when the heap reaches limit bytes.
+func TuneGC(limit int64) {
+	debug.SetGCPercent(-1)
+	debug.SetMemoryLimit(limit)
 }
 
 // InstanceID returns the static instance ID of member i ("" = dynamic).
@@ -61,6 +76,9 @@ func (c *Case) ID(i int) string {
 func (c *Case) InstanceID(i int) string {
 	if !c.Static {
 		return ""
+	}
+	if i < len(defaultInstanceIDs) {
+		return defaultInstanceIDs[i]
 	}
 	return fmt.Sprintf("i%d", 9-i)
 }
